@@ -39,7 +39,7 @@ package keeper
 
 //@ func (*Keeper).CheckSlashParameter
 //@   requires parameter != nil
-//@   ensures[C04.csp.spec] (err == nil) <==> (!isnil(parameter.SlashProportion) && val(parameter.SlashProportion) >= 0 &&
+//@   ensures[C04.csp.spec,C01.csp.spec] (err == nil) <==> (!isnil(parameter.SlashProportion) && val(parameter.SlashProportion) >= 0 &&
 //@        parameter.SlashEventHeight <= ctx.height && ((parameter.IsDogFood && parameter.Power > 0) || (!parameter.IsDogFood && parameter.Power == 0)))
 
 //@ define slashInfoKey(op, avs, id) = cat(g("x/operator/types.KeyPrefixOperatorSlashInfo"), join(op, avs, id))
